@@ -15,6 +15,7 @@ import TboxModel.C10.Spec
 import TboxModel.C10.BlockShape
 import TboxModel.C10.Sched
 import TboxModel.C10.PackRule
+import TboxModel.C10.Fault
 namespace Tbox.C10
 
 /-- **lossless, no duplication, contiguous, acquisition order.**  What has been delivered to the
@@ -350,6 +351,183 @@ theorem C10_late_append_can_block_forever :
       [.acquire 0, .pTake, .cleanupSignal, .bTop, .bWake false, .bGrab, .bPop, .join, .pWrite, .pTake]).map
       (fun s => (s.owner.map (·.blocked), s.free, s.bpc, s.stop, s.joined, s.late)) =
       some (some true, 0, .exited, true, true, true) := by decide
+
+/-! ### fault schedules: allocation failure while the pool grows from min to max (round 5) -/
+
+/-- **allocation failures are survived (repaired code).**  Executions are lists of `XStep`: the atomic steps of the model and,
+at ANY point where `appendLockless` would allocate a buffer (`allocFailValid`), the allocator's answer "no"
+(`std::bad_alloc` leaves `append`; the caller is told).  For every configuration, program and every such execution:
+(1) the stream equation still holds, where `acq` records for a failed append exactly the prefix it had written — nothing
+else is lost, duplicated, reordered or torn; (2) `buff_num_` still counts exactly the buffers in existence and stays within
+[min, max]; (3) every delivered block is well-formed; (4) callbacks stay serial. -/
+theorem C10_alloc_failure_safe (cfg : Cfg) (prog) (hc : cfg.ok = true) (xs : List XStep) (s : State)
+    (he : xexec true (init cfg prog) xs = some s) :
+    (s.delivered.flatten ++ s.full.flatten ++ currOf s.curr ++ remainOf s.owner = (s.acq.map (·.2)).flatten) ∧
+    (cfg.minN ≤ s.buffNum ∧ s.buffNum ≤ cfg.maxN ∧
+      s.buffNum = s.free + currCount s.curr + s.full.length + inflight s.bpc) ∧
+    (∀ b ∈ s.delivered, 1 ≤ b.length ∧ b.length ≤ cfg.size) ∧ s.active ≤ 1 := by
+  have h := xexec_xinv xs _ s (init_xinv cfg prog hc) he
+  have hcfg : s.cfg = cfg := xexec_cfg true xs _ s he
+  refine ⟨h.stream, ⟨hcfg ▸ h.acc.lo, hcfg ▸ h.acc.hi, h.acc.count⟩, ?_, ?_⟩
+  · intro b hb
+    have := h.blocks.delivOk b hb
+    rwa [hcfg] at this
+  · rw [h.shape.active]; cases s.bpc <;> simp [inCbN]
+
+/-- the failed append loses exactly its unwritten rest (and nothing that was already in the pipe): the concatenation of the
+recorded appends after the failure, followed by the rest that was dropped, is the concatenation before it -/
+theorem C10_alloc_failure_drops_exactly_the_rest (cfg : Cfg) (prog) (hc : cfg.ok = true) (xs : List XStep) (s : State)
+    (he : xexec true (init cfg prog) xs = some s) (o : Owner) (ho : s.owner = some o) (fixed : Bool) :
+    ((allocFailStep fixed s).acq.map (·.2)).flatten ++ o.remain = (s.acq.map (·.2)).flatten ∧
+    (allocFailStep fixed s).owner = none ∧ (allocFailStep fixed s).delivered = s.delivered ∧
+    (allocFailStep fixed s).full = s.full ∧ (allocFailStep fixed s).curr = s.curr := by
+  have h := xexec_xinv xs _ s (init_xinv cfg prog hc) he
+  obtain ⟨ini, pre, hacq⟩ := h.last o ho
+  simp only [allocFailStep, ho, hacq, cutLast_snoc, and_self, and_true]
+  simp [List.append_assoc]
+
+/-- **no deadlock, cleanup still returns** after any number of allocation failures (repaired code): a blocked producer is
+released by the back end alone within `mu s` steps, and after the stop signal the back end alone reaches `join` within
+`nu s` steps — exactly as without failures. -/
+theorem C10_alloc_failure_no_deadlock (cfg : Cfg) (prog) (hc : cfg.ok = true) (xs : List XStep) (s : State)
+    (he : xexec true (init cfg prog) xs = some s) :
+    (∀ o, s.owner = some o → o.tid ≠ sinkTid → o.blocked = true → s.bpc ≠ .exited →
+      ∃ bs s', (∀ st ∈ bs, st.isBackend = true) ∧ bs.length ≤ mu s ∧ exec s bs = some s' ∧
+        0 < s'.free ∧ valid s' .pWake = true) ∧
+    (s.stop = true → s.late = false → s.joined = false →
+      ∃ bs s', (∀ st ∈ bs, st.isBackend = true) ∧ bs.length ≤ nu s ∧ exec s bs = some s' ∧ valid s' .join = true) := by
+  have h := (xexec_xinv xs _ s (init_xinv cfg prog hc) he).toInv
+  constructor
+  · intro o ho hns hb hne
+    obtain ⟨bs, s', hbs, hlen, hex, hfree, how⟩ := backpressure_released _ (mu s + 1) s h o ho hns hb hne (by omega)
+    refine ⟨bs, s', hbs, by omega, hex, hfree, ?_⟩
+    simp [valid, how, ho, hb, hfree]
+  · intro hstop hl hj
+    obtain ⟨bs, s', hbs, hlen, hex, hpc, hst, hjn⟩ := cleanup_terminates _ (nu s + 1) s h hstop hl (by omega)
+    exact ⟨bs, s', hbs, by omega, hex, by simp [valid, hpc, hst, hjn, hj]⟩
+
+def cfgAF : Cfg := { size := 1, minN := 1, maxN := 2, interval := 1 }
+def progAF : Nat → List (List UInt8) := fun p => if p = 0 then [[1, 2]] else if p = 1 then [[3]] else []
+/-- thread 0 fills the only buffer, the allocation of the second one fails; thread 1 finds `buff_num_` at the limit and
+waits; the back end delivers the block and, seeing `buff_num_ > min`, DELETES the buffer instead of recycling it -/
+def stepsAF : List XStep :=
+  [.base (.acquire 0), .base .pTake, .base .pWrite, .allocFail, .base (.acquire 1), .base .pTake,
+   .base .bTop, .base .bGrab, .base .bPop, .base .bCbRet, .base .bPop]
+
+def deadB (s : State) : Bool :=
+  s.free == 0 && s.full.isEmpty && s.curr.isNone && inflight s.bpc == 0 &&
+    (match s.owner with | some o => o.blocked | none => false)
+
+theorem deadB_dead (s : State) (h : deadB s = true) : Dead s := by
+  unfold deadB at h
+  cases ho : s.owner with
+  | none => simp [ho] at h
+  | some o =>
+    simp only [ho, Bool.and_eq_true, beq_iff_eq, List.isEmpty_iff, Option.isNone_iff_eq_none] at h
+    exact ⟨h.1.1.1.1, h.1.1.1.2, h.1.1.2, h.1.2, o, ho, h.2⟩
+
+/-- the code AS FOUND (`++buff_num_` before `new Buffer`): ONE failed allocation leaves `buff_num_` counting a buffer that
+does not exist; a reachable state has NO buffer anywhere, a producer waiting for one, `buff_num_` = 1 ≠ 0 buffers — and
+however long the back end runs, the producer's wake-up is never enabled: the pipe is dead (replayed on the real code:
+`P run timeout`).  With the repaired order the same history is covered by `C10_alloc_failure_no_deadlock`. -/
+theorem C10_alloc_failure_count_leak_counterexample :
+    ∃ s, xexec false (init cfgAF progAF) stepsAF = some s ∧ Dead s ∧
+      s.buffNum ≠ s.free + currCount s.curr + s.full.length + inflight s.bpc ∧
+      ∀ bs s', (∀ st ∈ bs, st.isBackend = true) → exec s bs = some s' → valid s' .pWake = false := by
+  have h : (xexec false (init cfgAF progAF) stepsAF).map
+      (fun s => (deadB s, s.buffNum, s.free + currCount s.curr + s.full.length + inflight s.bpc)) = some (true, 1, 0) := by decide
+  cases hx : xexec false (init cfgAF progAF) stepsAF with
+  | none => simp [hx] at h
+  | some s =>
+    simp only [hx, Option.map_some, Option.some.injEq, Prod.mk.injEq] at h
+    refine ⟨s, rfl, deadB_dead s h.1, by omega, ?_⟩
+    intro bs s' hbs hex
+    exact (dead_forever bs s s' hbs (deadB_dead s h.1) hex).2
+
+/-- non-vacuity: with the repaired order the same failure is survived — thread 1 allocates, both appends' surviving bytes are delivered -/
+example : (xexec true (init cfgAF progAF)
+    [.base (.acquire 0), .base .pTake, .base .pWrite, .allocFail, .base (.acquire 1), .base .pTake, .base .pWrite, .base .release,
+     .base .bTop, .base .bGrab, .base .bPop, .base .bCbRet, .base .bPop, .base .bCbRet, .base .bPushFree, .base .bPop]).map
+    (fun s => (s.delivered, s.acq, s.buffNum, s.free)) = some ([[1], [3]], [(0, [1]), (1, [3])], 1, 1) := by decide
+
+/-! ### the API around a lifecycle (round 5) -/
+
+/-- **initialize validates**: it returns true exactly for an accepted configuration on an object that is not running, and a
+refusal leaves the object untouched -/
+theorem C10_api_init_validates (o : Obj) (cfg : Cfg) (prog) :
+    ((o.initialize true cfg prog .none).2 = .ok ↔ (cfg.ok = true ∧ o.inited = false)) ∧
+    ((o.initialize true cfg prog .none).2 = .refused → (o.initialize true cfg prog .none).1 = o) := by
+  unfold Obj.initialize
+  cases hi : o.inited <;> cases hk : cfg.ok <;> simp
+
+/-- **a second initialize is refused** (repaired code), whatever the configuration and whatever would fail: the running
+lifecycle is untouched -/
+theorem C10_api_init_twice_refused (o : Obj) (cfg : Cfg) (prog) (f : InitFault) (h : o.inited = true) :
+    o.initialize true cfg prog f = (o, .refused) := by
+  simp [Obj.initialize, h]
+
+/-- the code AS FOUND has no such check: a second `initialize` with a valid configuration overwrites `cfg_`, pushes into
+`free_buffers_` under the running back-end thread and destroys the joinable `std::thread` — `std::terminate` (replayed on
+the real code: TSan data race, then abort) -/
+theorem C10_api_init_twice_counterexample :
+    ∃ (o : Obj) (cfg : Cfg), o.inited = true ∧ cfg.ok = true ∧
+      (o.initialize false cfg (fun _ => []) .none).2 = .terminated :=
+  ⟨{ inited := true }, ⟨1, 1, 1, 1⟩, rfl, by decide, by decide⟩
+
+/-- **every lifecycle starts fresh**: a successful initialize on an object without stranded buffers starts exactly
+`init cfg prog` — the state every theorem of this file starts from -/
+theorem C10_api_fresh_lifecycle (o : Obj) (cfg : Cfg) (prog) (hs : o.stranded = 0)
+    (hr : (o.initialize true cfg prog .none).2 = .ok) :
+    (o.initialize true cfg prog .none).1.life = some (init cfg prog) ∧ (o.initialize true cfg prog .none).1.inited = true := by
+  have := (C10_api_init_validates o cfg prog).1.mp hr
+  simp [Obj.initialize, this.1, this.2, initOn, hs, init]
+
+/-- **cleanup is idempotent**, a no-op on an object that is not initialised, resets the callback, and the destructor is a cleanup -/
+theorem C10_api_cleanup_idempotent (o : Obj) :
+    o.cleanup.cleanup = o.cleanup ∧ (o.inited = false → o.cleanup = o) ∧ o.cleanup.inited = false ∧
+    (o.inited = true → o.cleanup.cb = false ∧ o.cleanup.stranded = 0) ∧ o.destroy = o.cleanup := by
+  unfold Obj.destroy Obj.cleanup
+  cases hi : o.inited <;> simp [hi]
+
+/-- an `initialize` that THROWS (thread creation failed) leaves its `buff_min_num` buffers in `free_buffers_`; a later
+successful `initialize` on the same object adds its own and counts only those: more buffers exist than `buff_num_` says
+(harmless for the stream, outside `C10_buffers_bounded`; `cleanup()` deletes them all).  Destroy or clean up such an object. -/
+theorem C10_api_init_threw_strands_buffers_counterexample :
+    let o1 := (({} : Obj).initialize true ⟨8, 2, 3, 5⟩ (fun _ => []) .thread)
+    let o2 := (o1.1.initialize true ⟨8, 2, 3, 5⟩ (fun _ => []) .none)
+    o1.2 = .threw ∧ o2.2 = .ok ∧ o2.1.life.map (fun s => (s.free, s.buffNum)) = some (4, 2) := by decide
+
+/-- **after a quiescent cleanup nothing runs**: once `join` has returned and no append was late, NO step of any thread is
+enabled — the unlocked tail of `cleanup()` (deleting `curr_buffer_` and the free buffers, resetting `cb_`) and a following
+`initialize()` on the same object execute alone. -/
+theorem C10_quiescent_after_cleanup (cfg : Cfg) (prog) (hc : cfg.ok = true) (sts : List Step) (s : State)
+    (he : exec (init cfg prog) sts = some s) (hj : s.joined = true) (hl : s.late = false) :
+    ∀ st, valid s st = false := by
+  have h := exec_inv prog sts _ s (init_inv cfg prog hc) he
+  have hx := h.shape.joinedExited hj
+  have hstop := h.shape.quitStop (by simp [hx, BPc.quit])
+  have ho := (C10_cleanup_flushes cfg prog hc sts s he hj hl).2.2.2
+  intro st
+  cases st <;> simp [valid, hx, hstop, ho, hj]
+
+/-- a sink callback that calls `cleanup()` on its own pipe waits for its own thread: while the callback runs, `join` is
+never enabled (the real code: `std::thread::join` throws EDEADLK out of the callback → `std::terminate`; documented
+experiment `exp cbcleanup`).  Outside the statement: the sink must not clean up its own pipe. -/
+theorem C10_sink_cannot_join_itself (s : State) (h : s.bpc.isInCb = true) : valid s .join = false := by
+  cases hb : s.bpc <;> simp [hb, BPc.isInCb] at h <;> simp [valid, hb]
+
+/-! ### `appendLockless` without `appendLock` (contract violation; counterexample kept) -/
+
+def progNL : Nat → List (List UInt8) := fun p => if p = 0 then [[0xA0, 1, 2]] else if p = 1 then [[0xA1, 3, 4]] else []
+
+/-- two callers of `appendLockless` that do NOT hold the producer lock, 2-byte buffers, loop iterations alternating: each
+append is torn across blocks and the stream is rejected by the specification — `appendLock()` is what makes an append
+contiguous.  (Serialised as the lock would, the same appends are accepted.) -/
+theorem C10_lockless_without_lock_counterexample :
+    let run := fun ps => nlRun 2 { rem := fun p => ((progNL p).headD []) } ps
+    ((run [0, 1, 0, 1]).out, (run [0, 1, 0, 1]).curr) = ([[0xA0, 1], [0xA1, 3], [2, 4]], []) ∧
+    Spec.accept progNL (run [0, 1, 0, 1]).out.flatten = false ∧
+    Spec.accept progNL (run [0, 0, 1, 1]).out.flatten = true := by decide
 
 /-! ### non-vacuity: concrete interleavings satisfying the hypotheses -/
 
